@@ -11,7 +11,9 @@ CONSTANTS OutFile, Shard, NShards
 Pool == <<Lit(0), Lit(1), Lit(2), Cat(Lit(3), W("hex")), Cat(Lit(2), W("oct")),
           Str(<<>>), Str(<<"a">>), Str(<<"a", "b">>), Str(<<"b", "a", "b">>), Str(<<"b">>),
           EList, Seq12, Cap(Lit(1)), Cap(Alt(Str(<<"a">>), Lit(1))), Cap(Cap(Lit(2))), Cap(Alt(Lit(2), Lit(1))),
-          Block(<<>>, Lit(1))>>
+          Block(<<>>, Lit(1)),
+          \* strings with an embedded NUL byte that agree up to it (C11-m: a comparison through a C string stops there)
+          Str(<<"a", "NUL", "b">>), Str(<<"a", "NUL", "c">>)>>
 
 Unary == <<"dup", "drop", "length", "elem", "relem", "value", "pos", "type", "?empty", "!empty",
            "hex", "dec", "oct", "bin">>
